@@ -34,7 +34,7 @@ func init() {
 
 func (p *c16) Init(w *lib.Worker) error { return nil }
 
-func explainSimple(d *model.SimpleDef, v any, implValid bool) []string {
+func explainSimple(d *model.SimpleDef, v any, implValid bool, formats strfmt.Registry) []string {
 	n := len(model.SimpleEmuNames)
 	masks := []int{}
 	for m := 1; m < 1<<n; m++ {
@@ -47,7 +47,7 @@ func explainSimple(d *model.SimpleDef, v any, implValid bool) []string {
 		return masks[i] < masks[j]
 	})
 	for _, m := range masks {
-		c := &model.SimpleCtx{Formats: strfmt.Default, Emu: model.SimpleEmuFromMask(m)}
+		c := &model.SimpleCtx{Formats: formats, Emu: model.SimpleEmuFromMask(m)}
 		if c.Valid(d, v, true) == implValid {
 			var keys []string
 			for i, name := range model.SimpleEmuNames {
@@ -139,7 +139,13 @@ func (p *c16) Run(w *lib.Worker, idx int, r *lib.Rand) lib.Case {
 	}
 	render := fmt.Sprintf("%s <- %T(%#v) header=%v", renderDef(d), v, v, isHeader)
 	c := lib.Case{Hash: lib.Hash64([]byte(render)), Nontrivial: constrained(d), Evals: 2}
-	mc := &model.SimpleCtx{Formats: strfmt.Default}
+	// every fourth case runs with a caller-supplied registry which disagrees with strfmt.Default on the string formats
+	formats, regName := strfmt.Registry(strfmt.Default), "strfmt.Default"
+	if idx%4 == 1 {
+		formats, regName = altRegistry(), "alternative"
+	}
+	render += " registry=" + regName
+	mc := &model.SimpleCtx{Formats: formats}
 	want := mc.Valid(d, v, true)
 	if mc.OutOfDomain {
 		return lib.Case{Tags: []string{"out-of-domain"}}
@@ -151,14 +157,14 @@ func (p *c16) Run(w *lib.Worker, idx int, r *lib.Rand) lib.Case {
 				opts = append(opts, validate.WithRecycleValidators(true))
 			}
 			if isHeader {
-				return sut.FromResult(validate.NewHeaderValidator("X-H", sg.Header(d), strfmt.Default, opts...).Validate(v))
+				return sut.FromResult(validate.NewHeaderValidator("X-H", sg.Header(d), formats, opts...).Validate(v))
 			}
-			return sut.FromResult(validate.NewParamValidator(sg.Param(d, "p", "query"), strfmt.Default, opts...).Validate(v))
+			return sut.FromResult(validate.NewParamValidator(sg.Param(d, "p", "query"), formats, opts...).Validate(v))
 		})
 	}
 	plain, rec := run(false), run(true)
 	sample := map[string]any{"case": render, "model": want, "validator": plain, "recycling_validator": rec}
-	c.Tags = append(c.Tags, "type:"+d.Type, boolTag("model-valid", want), boolTag("header", isHeader), fmt.Sprintf("carrier:%T", v))
+	c.Tags = append(c.Tags, "type:"+d.Type, boolTag("model-valid", want), boolTag("header", isHeader), fmt.Sprintf("carrier:%T", v), "registry:"+regName)
 	if idx%60000 == 0 {
 		c.Sample = sample
 	}
@@ -182,7 +188,7 @@ func (p *c16) Run(w *lib.Worker, idx int, r *lib.Rand) lib.Case {
 	if plain.Valid == want {
 		return c
 	}
-	if keys := explainSimple(d, v, plain.Valid); keys != nil {
+	if keys := explainSimple(d, v, plain.Valid, formats); keys != nil {
 		c.Known = keys
 		c.KnownWhat = fmt.Sprintf("%s model=%v impl=%v %v", render, want, plain.Valid, plain.Errors)
 		c.Sample = sample
